@@ -110,6 +110,9 @@ func UnmarshalAttribute(attr *api.Attribute) (bgp.PathAttributeInterface, error)
 		// accounts for the link-local one.
 		return bgp.NewPathAttributeMpReachNLRI(rf, l, nexthop, linkLocalNexthop)
 	case *api.Attribute_MpUnreach:
+		if a.MpUnreach.Family == nil {
+			return nil, fmt.Errorf("empty family")
+		}
 		rf := ToFamily(a.MpUnreach.Family)
 		nlris, err := UnmarshalNLRIs(rf, a.MpUnreach.Nlris)
 		if err != nil {
